@@ -109,11 +109,6 @@ pub trait Terminal: Write + Send {
                     return Err(error.into());
                 }
                 Ok(event) => {
-                    // allocate new renderer on resize
-                    if let Some(TerminalEvent::Resize(_)) = event {
-                        renderer.clear(self)?;
-                        renderer = TerminalRenderer::new(self, true)?;
-                    }
                     // drop frames if we are too far behind, renderer needs to be
                     // cleared before the handler draws the next frame
                     if self.frames_pending() > TERMINAL_FRAMES_DROP {
@@ -123,6 +118,12 @@ pub trait Terminal: Write + Send {
                         );
                         self.frames_drop();
                         renderer.clear(self)?;
+                    }
+                    // allocate new renderer on resize, only after the frames were
+                    // dropped: otherwise the image erases issued here are dropped too
+                    if let Some(TerminalEvent::Resize(_)) = event {
+                        renderer.clear(self)?;
+                        renderer = TerminalRenderer::new(self, true)?;
                     }
                     // handle event
                     let action = handler(self, event, renderer.surface())?;
